@@ -48,7 +48,7 @@ def code_keywords(tokens):
         imp = ('max', kws['importance'])
     return {'imp': imp, 'u': kws['u'], 'mat': kws['material'], 'rho': kws['density'],
             'lat': kws['lattice'], 'f_univs': kws['f_univs'], 'f_params': kws['f_params'], 'trcl': kws['trcl'],
-            'f_bounds': kws['f_bounds']}
+            'f_bounds': None if kws['f_bounds'] is None else [tuple(b) for b in kws['f_bounds'].bounds]}
 
 
 def expected_from_model(resp):
@@ -73,14 +73,36 @@ def expected_from_model(resp):
             return tuple(TRTABLE[int(ps[0])][:12])
         if len(ps) == 3:
             return tuple(ps + [1., 0., 0., 0., 1., 0., 0., 0., 1.])
-        return () if not ps else 'not-compared'   # other counts go through normalize_transform (C04)
+        if not ps:
+            return ()
+        # other counts go through normalize_transform (modelled and proved under C04, not part of the keyword logic):
+        # the code's own function decides whether the numbers are a transformation; its value is not compared here
+        from t4_geom_convert.Kernel.Transformation.Transformation import normalize_transform
+        from MIP.geom.transforms import to_cos
+        q = [float(x) for x in ps]
+        if star:
+            q[3:12] = list(map(to_cos, q[3:12]))
+        normalize_transform(q)
+        return 'not-compared'
+    # every FILL / TRCL keyword's numbers are turned into a transformation when the keyword is read: one that is replaced
+    # by a later keyword must still have been acceptable
+    if kv.get('chk', '-') != '-':
+        for part in kv['chk'].split('|'):
+            f = part.split(';')
+            tr(f[1:], f[0] == '1')
     if kv['fill'] == '-':
         out['f_univs'], out['f_params'] = None, None
     else:
         f = kv['fill'].split(',')
-        out['f_univs'], out['f_params'] = int(float(f[1])), tr(f[2:], f[0] == '1')
+        if f[0].startswith('A'):
+            # array form: index ranges, one universe per element (rounded as expand_data_card(dtype='int') does)
+            out['f_bounds'] = [tuple(int(x) for x in r.split(':')) for r in f[1].split(';')]
+            out['f_univs'] = [round(to_float(u)) for u in f[2].split(';')] if f[2] else []
+            out['f_params'] = tr(f[3:], f[0] == 'A1')
+        else:
+            out['f_univs'], out['f_params'] = int(float(f[1])), tr(f[2:], f[0] == '1')
     out['trcl'] = None if kv['trcl'] == '-' else tr(kv['trcl'].split(',')[1:], kv['trcl'].split(',')[0] == '1')
-    out['f_bounds'] = None
+    out.setdefault('f_bounds', None)
     return out
 
 
@@ -100,6 +122,34 @@ def kw_tokens(rng):
             return ['rho', rng.choice(['-1.0', '-2.50', '0.05', '1.5-2', '-1.'])]
         if k == 'lat':
             return ['lat', rng.choice(['1', '2', '1', '3'])]
+        if k == 'fill' and rng.random() < 0.35:
+            # array form: one to three index ranges, then one universe per element (sometimes with nR, sometimes one
+            # too few or too many), then nothing, a TR number or a translation
+            rs = []
+            size = 1
+            for _ in range(rng.choice([1, 1, 2, 2, 3])):
+                lo = rng.randint(-2, 1)
+                hi = lo + rng.choice([0, 1, 1, 2])
+                rs.append('%d:%d' % (lo, hi))
+                size *= hi - lo + 1
+            if rng.random() < 0.03:
+                rs[-1] = rng.choice(['1:0', '0:x', '1:2:3', ':', '2:1'])
+            m = rng.random()
+            count = size if m < 0.8 else max(0, size + rng.choice([-1, 1, 2]))
+            us = []
+            while len(us) < count:
+                if us and rng.random() < 0.15 and count - len(us) >= 1:
+                    k_ = rng.randint(1, min(3, count - len(us)))
+                    us.append(rng.choice(['%dr' % k_, 'r'] if k_ == 1 else ['%dr' % k_]))
+                    us += [None] * (k_ - 1)
+                else:
+                    us.append(rng.choice(['0', '1', '2', '3', '7', '2.0', '+3', '12']))
+            us = [u for u in us if u is not None]
+            if rng.random() < 0.02:
+                us.insert(rng.randrange(len(us) + 1), rng.choice(['2i', '2m', 'j', 'x', '1log']))
+            n = rng.choice([0, 0, 0, 1, 3])
+            ps = [rng.choice(['1', '2', '3', '4', '5'])] if n == 1 else [num() for _ in range(n)]
+            return [rng.choice(['fill', '*fill'])] + rs + us + ps
         if k == 'fill':
             n = rng.choice([0, 0, 1, 3])
             ps = [rng.choice(['1', '2', '3', '4', '5'])] if n == 1 else [num() for _ in range(n)]
@@ -125,11 +175,13 @@ def kwmodel_case(seed, rng, ctx):
         code = code_keywords(toks)
     except Exception as e:  # noqa
         code = ('error', type(e).__name__)
-    resp = ctx['drv'].ask('kwmodel ' + ' '.join(toks)) if toks else 'ok imp=- u=- mat=- rho=- lat=- fill=- trcl=-'
+    resp = ctx['drv'].ask('kwmodel ' + ' '.join(toks)) if toks else 'ok imp=- u=- mat=- rho=- lat=- fill=- trcl=- chk=-'
     fails = []
 
     def dis(msg):
         fails.append(fail('disagreement', 'options %r: %s' % (toks, msg), {'stream': 'kwmodel'}, {'tokens': toks}))
+    if resp.startswith('ok outside-model'):
+        return dict(hashes=[key], nontrivial_hashes=[], dist={'kwmodel:outside-model': 1}, sample=None, failures=[])
     if resp.startswith('ok error'):
         if not isinstance(code, tuple):
             dis('model: %s, code gives %r' % (resp, code))
